@@ -1255,7 +1255,15 @@ impl NamingActor {
             NamingRaftReq::RemoveInstance(instance_key) => {
                 let service_key = instance_key.get_service_key();
                 let instance_short_key = instance_key.get_short_key();
-                self.remove_instance(&service_key, &instance_short_key, None);
+                // the raft table only knows persistent instances; an ephemeral registration that replaced the
+                // persistent one under the same ip:port (flip persistent -> ephemeral) must survive this entry
+                let is_persistent = self
+                    .get_instance(&service_key, &instance_short_key)
+                    .map(|i| !i.ephemeral)
+                    .unwrap_or(false);
+                if is_persistent {
+                    self.remove_instance(&service_key, &instance_short_key, None);
+                }
                 Ok(NamingRaftResult::None)
             }
         }
